@@ -39,7 +39,7 @@ RULE = ("systematic family: all six methods x shared on/off x every variables.ma
         "expressed as gradient.samplers assignments with -1; random family: 1-4 sampler configurations of random methods, "
         "random assignment arrays (incl. -1 and samplers left without variables), random variables.mask, R <= 5, P <= 8, V <= 6 "
         "(230 cases quick / 8000 thorough; thorough also enumerates the masks of V = 5), "
-        "method spellings ('scipy/Sobol', 'default'), user options for a minority of samplers, int and tuple seeds; every sampler "
+        "realization weights with exact zeros in a third of the cases with R >= 2, method spellings ('scipy/Sobol', 'default'), user options for a minority of samplers, int and tuple seeds; every sampler "
         "is called three times in a (shuffled) round-robin schedule into which one to three gradient evaluations through "
         "EnsembleEvaluator.calculate are inserted (function+gradient request or function request followed by a gradient-only "
         "request; few-bit dyadic variables and per-variable magnitudes; no finite bounds); further streams: 2-4 samplers of the SAME "
@@ -104,6 +104,18 @@ MAGS = [0.0625, 0.125, 0.25, 0.5, 1.0, 2.0]
 XS = [-1.0, -0.5, 0.0, 0.0, 0.25, 0.75, 1.5]
 
 
+def _weights(rng, R):
+    """Realization weights; a third of the cases with R >= 2 have exact zeros (never all): a zero-weight realization still
+    gets its own perturbations (per realization unless shared)."""
+    if R < 2 or rng.random() < 0.6:
+        return None
+    w = [rng.choice([0.0, 0.0, 1.0, 0.5, 2.0]) for _ in range(R)]
+    w[rng.randrange(R)] = 1.0
+    if all(x > 0 for x in w):
+        w[(w.index(1.0) + 1) % R] = 0.0
+    return w
+
+
 def _point(rng, V):
     """Variables and per-variable perturbation magnitudes of the gradient evaluations (few-bit dyadics)."""
     if rng.random() < 0.3:
@@ -164,7 +176,7 @@ def gen_cases(tier, rng):
                     as_assign = rng.random() < 0.5
                     x, mag = _point(rng, V)
                     base = {"R": R, "P": P, "V": V, "seed": _seed(rng), "samplers": [_sampler(rng, method, shared)],
-                            "schedule": [0, rng.choice(["EB", "EG"]), 0], "x": x, "mag": mag}
+                            "schedule": [0, rng.choice(["EB", "EG"]), 0], "x": x, "mag": mag, "weights": _weights(rng, R)}
                     if all(mask) and rng.random() < 0.5:
                         yield {**base, "varmask": None, "assign": None}
                     elif as_assign:
@@ -203,7 +215,7 @@ def random_case(rng, big=False):
             assign = [rng.choice([-1] + list(range(K)) * 3) for _ in range(V)]
         x, mag = _point(rng, V)
         case = {"R": R, "P": P, "V": V, "varmask": varmask, "assign": assign, "samplers": samplers,
-                "seed": _seed(rng), "x": x, "mag": mag}
+                "seed": _seed(rng), "x": x, "mag": mag, "weights": _weights(rng, R)}
         case["schedule"] = _schedule(rng, K, e2e=rng.choice([1, 1, 2, 3]) if e2e_possible(case) else 0)
         return case
     raise RuntimeError("generator could not produce a case")
@@ -254,7 +266,7 @@ def special_case(rng, i):
         varmask = None if rng.random() < 0.5 else [rng.random() < 0.7 for _ in range(V)]
     x, mag = _point(rng, V)
     case = {"R": R, "P": P, "V": V, "varmask": varmask, "assign": assign, "samplers": samplers,
-            "seed": _seed(rng), "x": x, "mag": mag}
+            "seed": _seed(rng), "x": x, "mag": mag, "weights": _weights(rng, R)}
     n_e = rng.choice([2, 3]) if e2e_possible(case) else 0
     case["schedule"] = (["EB", "EG", "EB"][:n_e] if kind == 4 and n_e else _schedule(rng, K, rounds=2, e2e=n_e))
     return case
@@ -266,7 +278,7 @@ _PM = None
 
 def _config_dict(case):
     d = {"variables": {"initial_values": list(case.get("x") or [0.0] * case["V"])},
-         "realizations": {"weights": [1.0] * case["R"]},
+         "realizations": {"weights": list(case.get("weights") or [1.0] * case["R"])},
          "gradient": {"number_of_perturbations": case["P"],
                       "seed": tuple(case["seed"]) if isinstance(case["seed"], list) else case["seed"]},
          "samplers": [dict(s) for s in case["samplers"]]}
@@ -581,6 +593,7 @@ def features(case, obs):
             "methods": "+".join(ms), "shared": sum(bool(s["shared"]) for s in case["samplers"]),
             "varmask": case["varmask"] is not None, "assign": case["assign"] is not None,
             "options": any(s.get("options") for s in case["samplers"]),
+            "zero_weight": bool(case.get("weights")) and 0.0 in case["weights"],
             "raised": sum(c["out"] is None for c in obs["calls"]), "gradient_evaluations": len(obs.get("e2e", [])),
             "order_not_sorted": calling_order(case) != sorted(calling_order(case)),
             "unused_sampler": any(k not in calling_order(case) for k in range(len(case["samplers"]))) and case["assign"] is not None,
@@ -594,9 +607,12 @@ def shrink(case):
     for i in range(len(sched)):
         if len(sched) > 1:
             yield {**case, "schedule": sched[:i] + sched[i + 1:]}
-    for key in ("R", "P"):
-        if case[key] > 1:
-            yield {**case, key: case[key] - 1}
+    if case.get("weights") and case["R"] > 1:
+        yield {**case, "R": case["R"] - 1, "weights": case["weights"][:-1] if any(w > 0 for w in case["weights"][:-1]) else None}
+    elif case["R"] > 1:
+        yield {**case, "R": case["R"] - 1}
+    if case["P"] > 1:
+        yield {**case, "P": case["P"] - 1}
     if case["V"] > 1:
         V = case["V"] - 1
         yield {**case, "V": V, "varmask": None if case["varmask"] is None else case["varmask"][:V],
@@ -624,6 +640,7 @@ def search(rng, case):
             c = dict(case)
             c["seed"] = _seed(rng)
             c["R"], c["P"] = rng.choice([1, 2, 3]), rng.choice([1, 2, 3, 4])
+            c["weights"] = _weights(rng, c["R"])
             yield c
     for i in range(100):
         yield special_case(rng, i)
